@@ -8,9 +8,9 @@ PROP = "C07"
 PROPS_FILE = "C07.v"
 BACKENDS = [("inplace", [0]), ("ir", [0, 2]), ("bc", [0, 2]), ("jit", [0, 2])]
 BUDGETS_QUICK = [0, 1, 2, 3, 5, 8, 13, 40, 200, 5000, 1 << 62]
-BUDGETS_THOROUGH = list(range(0, 13)) + [16, 20, 24, 32, 50, 100, 255, 256, 257, 1000, 5000, 65536, 1 << 32, 1 << 62]
+BUDGETS_THOROUGH = list(range(0, 11)) + [13, 16, 24, 32, 50, 100, 255, 256, 257, 1000, 5000, 65536, 1 << 32, 1 << 62]
 COUNTS_QUICK = {"jmpsweep": 45, "runwalk": 50, "emptyspin": 40, "tailloop": 40, "ifnest": 40, "uniform": 120, "macro": 60, "affine": 60, "diverge": 40, "roam": 10}
-COUNTS_THOROUGH = {"jmpsweep": 150, "runwalk": 250, "emptyspin": 200, "tailloop": 200, "ifnest": 200, "uniform": 500, "macro": 200, "affine": 200, "diverge": 80, "roam": 40}
+COUNTS_THOROUGH = {"jmpsweep": 120, "runwalk": 200, "emptyspin": 150, "tailloop": 150, "ifnest": 150, "uniform": 350, "macro": 150, "affine": 150, "diverge": 60, "roam": 30}
 BIG = 1 << 62
 
 
@@ -88,7 +88,9 @@ def run(res):
             elif backend == "bc":
                 dumps = C.run_lines(hv, ["dumpbc|%d|%d|2|1|%s" % (c.w, level, P.hexs(c.src)) for c in cases])
             for b in budgets:
-                sel = [c for c in cases if not (b == BIG and c.meta["class"] == "diverges")]
+                # a divergent program uses its whole budget: budgets above 65536 cannot be observed to return within
+                # the time limit (2^32 loop iterations take minutes), so they are only run on halting programs
+                sel = [c for c in cases if not (b > 65536 and c.meta["class"] == "diverges")]
                 lines = P.run_backend_lines(sel, backend, level, mode="limited", budget=b, timeout=20000)
                 out = C.run_lines(hv, lines)
                 model = None
